@@ -544,14 +544,16 @@ theorem bcOk_distinct (dims : List String) (bc : String) (h : Mesh.bcOk dims bc 
     PlainBc bc ∨ Distinct bc.toList := distinct_of_bcOk dims bc h
 
 /-- **Periodic directions turn with the axes.**  For an odd quarter turn in the plane of two axes with
-single-character names, on a mesh whose `bc` passes the check: the turned mesh (`bc` =
+single-character lower-case names (the only names a `bc` string can mention: the `bc` setter
+lower-cases it; since repo fix be43fa9b `rotate90` leaves `bc` alone for any other name), on a mesh whose `bc` passes the check: the turned mesh (`bc` =
 `rotBc bc a1 a2 k`, either form) is periodic along `a2` iff the original was along `a1`, along `a1`
 iff the original was along `a2`, and along every other axis iff the original was. -/
 theorem periodic_directions_turn (m m' : Mesh) (hok : Mesh.bcOk m.region.dims m.bc = true) (a1 a2 : String) (k : Int)
-    (hk : isOdd k = true) (s1 : a1.length = 1) (s2 : a2.length = 1) (hbc : m'.bc = rotBc m.bc a1 a2 k) :
+    (hk : isOdd k = true) (s1 : a1.length = 1) (s2 : a2.length = 1) (lo1 : a1.toLower = a1) (lo2 : a2.toLower = a2)
+    (hbc : m'.bc = rotBc m.bc a1 a2 k) :
     (PeriodicAlong m' a2 ↔ PeriodicAlong m a1) ∧ (PeriodicAlong m' a1 ↔ PeriodicAlong m a2) ∧
     ∀ d, d ≠ a1 → d ≠ a2 → (PeriodicAlong m' d ↔ PeriodicAlong m d) :=
-  periodic_turns m m' hok a1 a2 k hk s1 s2 hbc
+  periodic_turns m m' hok a1 a2 k hk s1 s2 lo1 lo2 hbc
 
 /-- **Where this is NOT true — the exact condition (open finding D57).**  `rotBc` swaps letters only
 if BOTH axis names are single characters; if one of them has a multi-character name `bc` is
